@@ -94,7 +94,7 @@ func init() {
 			return 1500
 		},
 		ChunkSize:   50,
-		Rule:        "PRNG-drawn episodes of exactly-once publishes (1-16 messages, 1-2 goroutines) under the fault script of C01, weighted towards lost acknowledgements, read failures and transient store errors so that each of PUBREC, PUBREL, PUBCOMP gets lost in either direction; the reference broker forwards a QoS 2 message once per identifier cycle and its delivery log is the end-to-end oracle. 1 in 6 episodes runs on VolatileSession (wire-level oracle), 1 in 60 really completes 16,38x publishes and then restarts (C02's adoption oracle, two generations) on every stop point whose pending range lies across the identifier wrap, with 0-7 transfers at the PUBREL stage. Non-trivial: at least one message saw a new connection between its PUBREL record and its completion; distinct by fault multiset, connections and messages.",
+		Rule:        "PRNG-drawn episodes of exactly-once publishes (1-16 messages, 1-2 goroutines) under the fault script of C01, weighted towards lost acknowledgements, read failures and transient store errors so that each of PUBREC, PUBREL, PUBCOMP gets lost in either direction; the reference broker forwards a QoS 2 message once per identifier cycle and its delivery log is the end-to-end oracle. 1 in 6 episodes runs on VolatileSession (wire-level oracle), 1 in 5 ends with 1-2 stops and AdoptSession followed by new publishes, 1 in 60 really completes 16,38x publishes and then restarts (C02's adoption oracle, two generations) on every stop point whose pending range lies across the identifier wrap, with 0-7 transfers at the PUBREL stage. Non-trivial: at least one message saw a new connection between its PUBREL record and its completion; distinct by fault multiset, connections and messages.",
 		Assumptions: []string{"the broker forwards a QoS 2 PUBLISH on first receipt and again only after PUBREL ended the cycle (method A of the specification)", "see C01"},
 		Run: func(c *run.Ctx) {
 			if c.Case == 0 {
@@ -120,6 +120,9 @@ func init() {
 			if c.Case%6 == 4 {
 				pp.Volatile = true
 				c.Count("volatile_session_episodes", 1)
+			} else if c.Rng.Intn(4) == 0 {
+				pp.Restarts = 1 + c.Rng.Intn(2)
+				c.Count("episodes_with_restarts", 1)
 			}
 			ep, a, all := runPubWorkload(c, pp)
 			if a == nil {
@@ -151,7 +154,7 @@ func init() {
 			return 1500
 		},
 		ChunkSize:   50,
-		Rule:        "PRNG-drawn episodes in two modes: sequential (one publisher, exact call order) and concurrent (2-8 publisher goroutines on both levels racing the read routine and reconnects, random yield/sleep at the submit, connect and write hook points, race detector on); a quarter of the episodes end with 1-2 stops and AdoptSession on the same Persistence followed by new publishes, and 1 in 50 does so with the in-flight window across the 14-bit identifier wrap (after really completing 16,38x publishes). Oracles on the decoded wire per level: first appearances in acceptance (Save) order, resend region = pending set in ascending order before anything new, PUBREL in PUBREC order, DUP iff an earlier complete write in the same process. Non-trivial: >= 2 messages in flight at a reconnect or >= 2 goroutines publishing; distinct by mode, fault multiset, connections, messages.",
+		Rule:        "PRNG-drawn episodes in two modes: sequential (one publisher, exact call order) and concurrent (2-8 publisher goroutines on both levels racing the read routine and reconnects, random yield/sleep at the submit, connect and write hook points, race detector on); 1 in 8 episodes runs on VolatileSession (resend completeness and PUBREL order read off the wire); a quarter of the episodes end with 1-2 stops and AdoptSession on the same Persistence followed by new publishes, and 1 in 50 does so with the in-flight window across the 14-bit identifier wrap (after really completing 16,38x publishes). Oracles on the decoded wire per level: first appearances in acceptance (Save) order, resend region = pending set in ascending order before anything new, PUBREL in PUBREC order, DUP iff an earlier complete write in the same process. Non-trivial: >= 2 messages in flight at a reconnect or >= 2 goroutines publishing; distinct by mode, fault multiset, connections, messages.",
 		Assumptions: []string{"either DUP value is accepted after a partial earlier write and after a restart (documented)", "the order in which exchange channels close is not asserted: it cannot be observed soundly from outside", "see C01"},
 		Run: func(c *run.Ctx) {
 			conc := 1
@@ -161,6 +164,10 @@ func init() {
 			pp := pubParams{NPub: conc * (1 + c.Rng.Intn(10)), Levels: [][]int{{1}, {2}, {1, 2}}[c.Rng.Intn(3)], Conc: conc, Budget: c.Rng.Intn(7), Yield: true, SettleP: c.Rng.Float64() * 0.5, BigP: 0.02}
 			if c.Rng.Intn(4) == 0 {
 				pp.Restarts = 1 + c.Rng.Intn(2)
+			}
+			if c.Case%8 == 3 {
+				pp.Volatile = true
+				c.Count("volatile_session_episodes", 1)
 			}
 			if c.Case%50 == 7 {
 				// restart with the window across the identifier wrap
@@ -175,10 +182,12 @@ func init() {
 			if a == nil {
 				return
 			}
-			if conc == 1 {
+			if conc == 1 && !pp.Volatile {
 				checkCallOrder(a, all)
 			}
-			checkLivePubrelOrder(ep, a)
+			if !pp.Volatile {
+				checkLivePubrelOrder(ep, a)
+			}
 			reportPubs(c, ep, a, all, "C05", "C17")
 			resends := ep.W.PointCount("connect.resent")
 			mode := "seq"
